@@ -337,8 +337,18 @@ func (r *result) oracleMedia(sc scenario, req areq, o *outcome, ref *aplaylist, 
 				ref.MediaSequence, len(ref.Segments), len(ref.Parts)))
 		}
 	case o.Class == "done" && o.Status == 400:
-		allowed := mr.M > lastComplete+2 || mr.M <= uint64(ref.MediaSequence)
-		if !allowed || mr.M == ref.openMSN() || mr.M == ref.openMSN()+1 {
+		// an immediate 400 is for what cannot be satisfied: more than two past the last complete
+		// segment, or already expired (no longer listed)
+		tooFar := mr.M > lastComplete+2
+		expired := mr.M < uint64(ref.MediaSequence)
+		switch {
+		case tooFar || expired:
+		case mr.M == uint64(ref.MediaSequence) && ref.contains(mr.M, mr.P):
+			// recorded finding F28: the code's range check excludes the head of the window
+			r.fail(sc, "C06:400:head-of-window:listed-segment-rejected", desc+fmt.Sprintf(
+				": 400 for msn %d, the FIRST LISTED segment (window %d..%d, open %d): it has not expired and the playlist of the same instant contains what was asked",
+				mr.M, ref.MediaSequence, lastComplete, ref.openMSN()))
+		default:
 			r.fail(sc, "C06:rejected-satisfiable", desc+fmt.Sprintf(": 400 for msn %d (window %d..%d, open %d)", mr.M, ref.MediaSequence, lastComplete, ref.openMSN()))
 		}
 	case o.Class == "waiting":
